@@ -54,6 +54,29 @@ HARNESS = [
     ("remove_audit_map_entry", [("source_port", "u16"), ("map_present", "bool"), ("type_ok", "bool"), ("op_ok", "bool")]),
     ("constants_wire_server", []), ("constants_ga_plugin", []), ("constants_imds", []), ("constants_proxy_agent", []),
 ]
+# Kani proof harnesses: (proof name, check, fixed inputs).  The three aya-outcome booleans are enumerated exhaustively by FOUR
+# proofs per check -- (absent,*,*), (present,mistyped,*), (present,typed,syscall fails), (present,typed,ok) -- instead of three
+# kani::any() booleans: same full domain, but the four run as parallel processes (symbolic execution of the String-building error
+# paths dominates the cost, not SAT).
+OUTCOMES = [("absent", {"map_present": 0}), ("mistyped", {"map_present": 1, "type_ok": 0}),
+            ("syscall_err", {"map_present": 1, "type_ok": 1, "op_ok": 0}), ("ok", {"map_present": 1, "type_ok": 1, "op_ok": 1})]
+PROOFS = []
+for _n, _ins in HARNESS:
+    if any(a == "map_present" for a, _ in _ins):
+        for _suf, _fix in OUTCOMES:
+            PROOFS.append(("%s__%s" % (_n, _suf), _n, _fix))
+    else:
+        PROOFS.append((_n, _n, {}))
+
+
+def make_groups():
+    light = [p for p, n, f in PROOFS if not f and not n.startswith("constants_")]
+    cheap = [p for p, n, f in PROOFS if f and f.get("type_ok") != 1]
+    heavy = [[p] for p, n, f in PROOFS if f.get("type_ok") == 1]
+    consts = [p for p, n, f in PROOFS if n.startswith("constants_")]
+    return [light, cheap] + heavy + [consts[:2], consts[2:]]
+
+
 # real functions exercised by each harness: (file, item path) -- file:line looked up at run time
 REAL = {
     "policy_key_image": [(R_OBJ, "_destination_entry::from_ipv4"), (R_OBJ, "_destination_entry::to_array"), (R_OBJ, "_ip_address::from_ipv4")],
@@ -193,13 +216,18 @@ def gen_layout(layout):
 
 def gen_harnesses():
     out = ["#[cfg(kani)]", "mod proofs {", "    use super::checks;"]
-    for name, ins in HARNESS:
+    ins_of = dict(HARNESS)
+    for pname, name, fixed in PROOFS:
+        ins = ins_of[name]
         out.append("    #[kani::proof]")
-        out.append("    fn h_%s() {" % name)
+        out.append("    fn h_%s() {" % pname)
         for a, t in ins:
-            out.append("        let %s: %s = kani::any();" % (a, t))
+            if a in fixed:
+                out.append("        let %s: %s = %s;" % (a, t, "true" if fixed[a] else "false"))
+            else:
+                out.append("        let %s: %s = kani::any();" % (a, t))
         out.append("        checks::%s(%s);" % (name, ", ".join(a for a, _ in ins)))
-        out.append('        kani::cover!(true, "vacuity: end of h_%s is reachable");' % name)
+        out.append('        kani::cover!(true, "vacuity: end of h_%s is reachable");' % pname)
         out.append("    }")
     out.append("}")
     out.append("")
@@ -313,7 +341,7 @@ def label_of(desc, harness):
         return "clause", m.group(1)
     if desc.startswith("vacuity:"):
         return "vacuity", desc
-    return "safety", "C06.rs.%s.safety" % harness.replace("h_", "", 1)
+    return "safety", "C06.rs.%s.safety" % harness.replace("h_", "", 1).split("__")[0]
 
 
 def run_kani(crate, harnesses, timeout, cmds, playback=False, target="target"):
@@ -325,14 +353,6 @@ def run_kani(crate, harnesses, timeout, cmds, playback=False, target="target"):
     rc, so, se, wall = sh(cmd, crate, timeout, cmds, target)
     return rc, so, se, wall
 
-
-# harnesses verified by one `cargo kani` process each group; groups run in parallel, each with its own CARGO_TARGET_DIR
-# (cargo serialises builds that share a target directory)
-GROUPS = [
-    ["policy_key_image", "audit_key_image", "audit_entry_field_order", "skip_entry_image", "rust_layout", "audit_decode"],
-    ["lookup_audit"], ["update_redirect_policy"], ["update_policy_elem"], ["update_skip_process_map"], ["remove_audit_map_entry"],
-    ["constants_wire_server"], ["constants_ga_plugin"], ["constants_imds"], ["constants_proxy_agent"],
-]
 
 
 # ------------------------------------------------------------------ replay
@@ -355,13 +375,15 @@ def do_replay(binary, check, vals):
     return p.returncode, p.stdout.strip(), p.stderr.strip()
 
 
-def decode_playback(pb, ins):
-    """byte vectors of the concrete-playback test, in kani::any() order -> values"""
-    if pb is None or len(pb) < len(ins):
+def decode_playback(pb, ins, fixed):
+    """byte vectors of the concrete-playback test, in kani::any() order -> values for all inputs of the check"""
+    free = [a for a, t in ins if a not in fixed]
+    if pb is None or len(pb) < len(free):
         return None
+    it = iter(pb)
     vals = []
-    for bs, (a, t) in zip(pb, ins):
-        vals.append(int.from_bytes(bytes(bs), "little"))
+    for a, t in ins:
+        vals.append(fixed[a] if a in fixed else int.from_bytes(bytes(next(it)), "little"))
     return vals
 
 
@@ -395,11 +417,12 @@ def run(tier="quick", seed=0, pid="C06"):
                 res["functions"].append(dict(name=path, rel=lines[path][0], line=lines[path][1], rules=["path-include" if rel in (R_OBJ, R_CONST) else "span-extract"]))
             else:
                 res["undecided"].append("anchor lost: %s not found in %s" % (path, rel))
-    names = [h for h, _ in HARNESS]
-    assert sorted(names) == sorted(sum(GROUPS, []))
+    names = [p for p, _, _ in PROOFS]
+    groups = [g for g in make_groups() if g]
+    assert sorted(names) == sorted(sum(groups, []))
     parsed, wall = {}, 0.0
-    with concurrent.futures.ThreadPoolExecutor(len(GROUPS)) as ex:
-        futs = [(g, ex.submit(run_kani, crate, g, timeout, cmds, False, "target_g%d" % i)) for i, g in enumerate(GROUPS)]
+    with concurrent.futures.ThreadPoolExecutor(min(16, len(groups))) as ex:
+        futs = [(g, ex.submit(run_kani, crate, g, timeout, cmds, False, "target_g%d" % i)) for i, g in enumerate(groups)]
         for g, f in futs:
             rc, so, se, w = f.result()
             wall = max(wall, w)
@@ -417,6 +440,7 @@ def run(tier="quick", seed=0, pid="C06"):
         return res
     failing = {}
     per_h = {}
+    clause_reached = {}
     for name in names:
         h = "h_" + name
         r = parsed.get(h)
@@ -436,8 +460,10 @@ def run(tier="quick", seed=0, pid="C06"):
                 # path (not counted either way); for a C06 clause it means the clause was never exercised: vacuous.
                 n_unreach += 1
                 if kind == "clause":
-                    res["undecided"].append("vacuity guard: clause %s is UNREACHABLE in %s" % (lab, h))
+                    clause_reached.setdefault(lab, False)
                 continue
+            if kind == "clause":
+                clause_reached[lab] = True
             n_all += 1
             n_clause += 1 if kind == "clause" else 0
             if st == "SUCCESS":
@@ -454,6 +480,11 @@ def run(tier="quick", seed=0, pid="C06"):
         res["obligations"] += n_all
         res["discharged"] += n_ok
 
+    for lab, reached in sorted(clause_reached.items()):
+        if not reached:
+            res["undecided"].append("vacuity guard: clause %s is UNREACHABLE in every proof harness (never exercised)" % lab)
+    res["extra"]["clauses_exercised"] = sum(1 for v in clause_reached.values() if v)
+
     # failures: counterexample by concrete playback, replay with plain rustc on the same real files
     if failing:
         bad_h = sorted(set(x[0] for v in failing.values() for x in v))
@@ -461,16 +492,18 @@ def run(tier="quick", seed=0, pid="C06"):
         pb = parse_kani(so2) if rc2 is not None else {}
         binary, berr = build_replay(wd, cmds)
         ins_of = dict(HARNESS)
+        proof_of = {p: (n, f) for p, n, f in PROOFS}
         for lab in sorted(failing):
-            name, cid, desc, loc = failing[lab][0]
+            pname, cid, desc, loc = failing[lab][0]
+            name, fixed = proof_of[pname]
             ins = ins_of[name]
-            vals = decode_playback((pb.get("h_" + name) or {}).get("playback"), ins) if ins else []
+            vals = decode_playback((pb.get("h_" + pname) or {}).get("playback"), ins, fixed) if ins else []
             cex = dict(zip([a for a, _ in ins], vals)) if vals is not None else None
             w = None
             if binary is None:
                 w = dict(failing_input=None, note=berr)
             elif vals is None:
-                w = dict(failing_input=None, note="Kani printed no concrete playback values for h_%s" % name)
+                w = dict(failing_input=None, note="Kani printed no concrete playback values for h_%s" % pname)
             else:
                 rcr, out, err = do_replay(binary, name, vals)
                 m = re.search(r"panicked at [^\n]*\n?(.*)", err, re.S)
@@ -486,7 +519,7 @@ def run(tier="quick", seed=0, pid="C06"):
             src = None
             if rel_fn[1] in lines:
                 src = "%s:%d" % lines[rel_fn[1]]
-            res["failures"].append(dict(label=lab, fn=(rel_fn[1] or name), msg="Kani check %s FAILURE in harness h_%s: %s" % (cid, name, desc), src=src,
+            res["failures"].append(dict(label=lab, fn=(rel_fn[1] or name), msg="Kani check %s FAILURE in harness h_%s: %s" % (cid, pname, desc), src=src,
                                         clause=desc, rendered="Check %s\n - Status: FAILURE\n - Description: %s\n - Location: %s" % (cid, desc, loc),
                                         counterexample=cex, witness=w))
 
